@@ -20,6 +20,7 @@
 #include <sys/types.h>
 #include <sys/uio.h>
 #include <sys/time.h>
+#include <sys/epoll.h>
 
 #ifndef V_MAXSZ
 #define V_MAXSZ ((size_t)1 << 40)   /* object sizes are below this by precondition of the specs */
